@@ -19,6 +19,10 @@
                                  append_children, append_text, postprocess
                                                                   -> dech
 
+   (replace_references also copies the referenced node's own prefix
+   declarations to the referrer, db8b9ec: prefixes are not part of this model,
+   see Prefix.v.)
+
    The sax tree is a HEAP (node ids, children lists): replace_references
    appends the referenced node's children -- the SAME nodes -- to the
    referrer, and Encoded.applyaty writes xsi:type onto (possibly shared) child
